@@ -599,3 +599,8 @@ mod tests {
         assert_eq!(mem.members().len(), 1);
     }
 }
+
+// Verification hook (/verif): contract proof harnesses; compiled only by `cargo kani`.
+#[cfg(kani)]
+#[path = "/verif/kani/membership.rs"]
+mod verif_kani;
